@@ -1595,6 +1595,38 @@ pub fn run(cx: &mut Ctx) {
             st.describe(|| json!({"subcheck": "proxy", "input": {"program": c.program, "docs": c.docs, "mode": if c.raw || c.docs.len() == 1 { "raw" } else { "batch" }, "ops": c.ops}}));
             check_proxy(&c, envr, st)
         });
+        // jq's total order on objects (sorted key lists first, then values in sorted-key order),
+        // unchanged between 1.6 and 1.7.1: families of objects over one key set, each written in
+        // its own insertion order, under the ordering builtins
+        cx.check("proxy-object-order", "arrays of 2..5 objects over one key set of 2..4 keys in random insertion orders with values 0..2 (plus occasional extra/missing key) x {sort, unique, min, max, group_by(.), sort_by(.), .[0] < .[1], .[0] == .[1], unique_by(.)}: succinctly vs jq 1.6", Budget { quick: 400, thorough: 20_000, max_len: 96 }, |u, st| {
+            let pool = ["b", "a", "d", "c"];
+            let nk = u.range(2, 4);
+            let n = u.range(2, 5);
+            let mut objs: Vec<String> = vec![];
+            for _ in 0..n {
+                let mut order: Vec<usize> = (0..nk).collect();
+                for i in (1..nk).rev() {
+                    let j = u.below(i + 1);
+                    order.swap(i, j);
+                }
+                if u.ratio(1, 8) {
+                    order.pop();
+                }
+                let mut fields: Vec<String> = order.iter().map(|&i| format!("\"{}\":{}", pool[i], u.range(0, 2))).collect();
+                if u.ratio(1, 8) {
+                    fields.push("\"z\":0".to_string());
+                }
+                objs.push(format!("{{{}}}", fields.join(",")));
+            }
+            let doc = format!("[{}]", objs.join(","));
+            let program = u.pick(&["sort", "unique", "min", "max", "group_by(.)", "sort_by(.)", "(.[0] < .[1])", "(.[0] == .[1])", "unique_by(.)", "(.[0] <= .[1])", "[.[] | . > {\"a\":1,\"b\":1}]"]).to_string();
+            let c = ProxyCase { program: program.clone(), docs: vec![doc.clone()], raw: true, ops: vec!["object-order".to_string()], nodes: 3, catch_dot: false, deliberate: 0, scalar_input: false };
+            st.class(&format!("prog:{}", program));
+            st.nontrivial(hash_str(&format!("{}|{}", program, doc)));
+            st.sample("object-order", || json!({"program": program, "doc": doc}));
+            st.describe(|| json!({"subcheck": "proxy", "input": {"program": c.program, "docs": c.docs, "mode": "raw", "ops": c.ops}}));
+            check_proxy(&c, envr, st)
+        });
         for cl in ["mode:raw", "mode:batch", "deliberate-type-error", "message-compared", "op:reduce", "op:foreach", "op:if", "op:try", "op:alternative", "op:object", "op:assign", "op:update", "op:path", "op:sort", "op:add", "op:div", "op:select", "op:limit", "op:def", "op:as", "op:interpolation", "input:container"] {
             cx.require_class("proxy", cl, 10);
         }
